@@ -35,7 +35,10 @@ def labels(draw, n, kind=None, order=None, kinds="ifs"):
     kind = kind or draw(st.sampled_from(list(kinds)))
     order = order or draw(st.sampled_from(["inc", "dec", "shuf"]))
     if kind == "i":
-        vals = draw(st.lists(st.integers(-6, 14), min_size=n, max_size=n, unique=True))
+        if n and draw(st.integers(0, 5)) == 0:
+            vals = list(draw(st.permutations(list(range(n)))))      # labels that are valid positions (0..n-1) in another order
+        else:
+            vals = draw(st.lists(st.integers(-6, 14), min_size=n, max_size=n, unique=True))
     elif kind == "f":
         ks = draw(st.lists(st.integers(-12, 28), min_size=n, max_size=n, unique=True))
         vals = [k / 10.0 for k in ks] if draw(st.integers(0, 3)) == 0 else [k / 4.0 for k in ks]
